@@ -247,6 +247,9 @@ type mrun struct {
 	incMsg   itypes.MsgServer
 	macc     sdk.AccAddress
 	now      time.Time
+	liq      bool  // a keeper liquidation of an x/hard position succeeded in this sequence
+	block    int   // index of the current block
+	reenter  []int // per user: block of its last liquidation while it has not supplied / borrowed again, else -1
 	bank     interface {
 		GetBalance(sdk.Context, sdk.AccAddress, string) sdk.Coin
 	}
@@ -516,10 +519,15 @@ func (w *world) mseq(out *c.Out, seq int, r *c.Rng) {
 	var lastBlock time.Time
 	haveLast := false
 	prevUser := 0
+	m.reenter = make([]int, nUsers)
+	for u := range m.reenter {
+		m.reenter[u] = -1
+	}
 
 	for b := 0; b < nblocks; b++ {
 		now := times[b]
 		m.now = now
+		m.block = b
 		ctx = ctx.WithBlockTime(now).WithBlockHeight(ctx.BlockHeight() + 1)
 		m.ctx = ctx
 
@@ -558,7 +566,9 @@ func (w *world) mseq(out *c.Out, seq int, r *c.Rng) {
 			}
 			// Σ user shares = total source shares; the earn module account is a further supplier of the
 			// vault denoms in x/hard
-			if in.src == "hsupply" && (in.ctype == "busd" || in.ctype == "usdx") {
+			// x/hard after a liquidation: the bids / lots taken off the totals are truncated and a lot is capped at the
+			// module account's balance, so the totals may keep more than the remaining positions add up to
+			if (in.src == "hsupply" && (in.ctype == "busd" || in.ctype == "usdx")) || (m.liq && claimType(in.src) == "hard") {
 				out.Case("", "c09.sumle", tag+in.src, mant(pres[k].T), join(ss))
 			} else {
 				out.Case("", "c09.sum", tag+in.src, mant(pres[k].T), join(ss))
@@ -644,9 +654,34 @@ func (w *world) mseq(out *c.Out, seq int, r *c.Rng) {
 			if o > 0 && r.Bool() {
 				u = prevUser
 			}
+			last := prevUser
 			same := o > 0 && u == prevUser
 			prevUser = u
 			kind, target := m.pickOp(u)
+			if _, has := hk.GetBorrow(ctx, w.users[u]); kind == "hliq" && !has {
+				// aim at a user that has a borrow
+				for v := 1; v < nUsers; v++ {
+					if _, ok := hk.GetBorrow(ctx, w.users[(u+v)%nUsers]); ok {
+						u = (u + v) % nUsers
+						break
+					}
+				}
+			}
+			// a user liquidated in an EARLIER block comes back: supplies again, then borrows again
+			for ru, lb := range m.reenter {
+				if lb >= 0 && lb < b && r.Chance(30) {
+					u = ru
+					if _, has := hk.GetDeposit(ctx, w.users[ru]); !has {
+						kind, target = "hdep", ""
+					} else {
+						kind, target = "hbor", c.Pick(r, m.ctypes("hborrow"))
+						m.reenter[ru] = -1
+					}
+					break
+				}
+			}
+			same = o > 0 && u == last
+			prevUser = u
 			if kind == "claim" {
 				m.doClaim(target, u)
 				continue
@@ -699,7 +734,7 @@ func (m *mrun) setupOps() [][2]string {
 	return ops
 }
 
-var mKinds = []string{"sdep", "sdep", "swd", "swd", "hdep", "hdep", "hwd", "hwd", "hbor", "hbor", "hrep", "hrep", "hrep3",
+var mKinds = []string{"sdep", "sdep", "swd", "swd", "hdep", "hdep", "hwd", "hwd", "hbor", "hbor", "hrep", "hrep", "hrep3", "hliq", "hliq", "hliq",
 	"ccreate", "ccreate", "cdraw", "cdraw", "crepay", "crepay", "cdep", "cwd", "cdep3", "edep", "edep", "ewd", "ewd",
 	"claim", "claim", "claim", "claim", "claim", "claim", "claim", "claim"}
 
@@ -747,6 +782,13 @@ func (m *mrun) feasible(kind, target string, u int) bool {
 	case "hrep", "hrep3":
 		b, ok := hk.GetBorrow(ctx, addr)
 		return ok && b.Amount.AmountOf(target).IsPositive()
+	case "hliq": // somebody borrows
+		for _, a := range w.users {
+			if _, ok := hk.GetBorrow(ctx, a); ok {
+				return true
+			}
+		}
+		return false
 	case "ccreate":
 		_, ok := w.tApp.GetCDPKeeper().GetCdpByOwnerAndCollateralType(ctx, addr, target)
 		return !ok
@@ -796,6 +838,11 @@ func (m *mrun) doOp(kind, target string, u int, same bool) {
 			in.nsync++
 			in.nsyncU[u]++
 		}
+		if kind == "hliq" {
+			m.liq = true
+			m.reenter[u] = m.block
+			m.out.Note("multi:hliq:liquidated")
+		}
 	}
 	for k, g := range groups {
 		post := m.gsnapshot(g, u)
@@ -818,6 +865,52 @@ func (m *mrun) doOp(kind, target string, u int, same bool) {
 	if cls == kapp.OK {
 		m.evalUser(ct, kind, u)
 	}
+}
+
+// pushOverLimit moves the oracle prices so that addr's x/hard borrow exceeds its borrow limit (LTV 0.6 on every
+// deposit, equal conversion factors): the position is over the limit iff Σ_d price_d·(borrowed_d − 0.6·supplied_d) > 0,
+// so the denoms with a net borrow keep their price and the others fall by a common factor.  Returns the prices to
+// put back, nil when nothing was moved (no borrow, no denom with a net borrow, already over the limit).
+func (m *mrun) pushOverLimit(ctx sdk.Context, addr sdk.AccAddress) map[string]sdk.Dec {
+	w, r := m.w, m.r
+	hk := w.tApp.GetHardKeeper()
+	d, okD := hk.GetDeposit(ctx, addr)
+	bo, okB := hk.GetBorrow(ctx, addr)
+	if !okD || !okB {
+		return nil
+	}
+	ltv := sdk.MustNewDecFromStr("0.6")
+	debt, coll := sdk.ZeroDec(), sdk.ZeroDec()
+	var fall []string
+	for _, dn := range []string{"bnb", "busd", "usdx"} {
+		net := sdk.NewDecFromInt(bo.Amount.AmountOf(dn)).Sub(ltv.MulInt(d.Amount.AmountOf(dn)))
+		v := w.price(ctx, dn+":usd").Mul(net)
+		if v.IsPositive() {
+			debt = debt.Add(v)
+		} else if v.IsNegative() {
+			coll = coll.Sub(v)
+			fall = append(fall, dn)
+		}
+	}
+	if !debt.IsPositive() || !coll.IsPositive() {
+		return nil
+	}
+	f := debt.Quo(coll).MulInt64(r.Range(30, 99)).QuoInt64(100)
+	if f.GTE(sdk.OneDec()) {
+		return nil
+	}
+	old := map[string]sdk.Dec{}
+	for _, dn := range fall {
+		p := w.price(ctx, dn+":usd")
+		if p.Mul(f).LT(minBnbPrice) {
+			return nil
+		}
+		old[dn] = p
+	}
+	for _, dn := range fall {
+		w.setPrice(ctx, dn+":usd", old[dn].Mul(f))
+	}
+	return old
 }
 
 func (m *mrun) sourceOp(ctx sdk.Context, kind, target string, u int) (string, error) {
@@ -922,6 +1015,24 @@ func (m *mrun) sourceOp(ctx sdk.Context, kind, target string, u int) (string, er
 		}
 		_, err := m.ms.hard.Borrow(sdk.WrapSDKContext(ctx), &hardtypes.MsgBorrow{Borrower: addr.String(), Amount: cs})
 		return cs.String(), err
+	case "hliq": // another user liquidates the owner's whole x/hard position (MsgLiquidate)
+		// mostly after an oracle move that puts the owner over its borrow limit.  The prices come back within the
+		// same transaction: bnb and busd are cdp collateral in this world and x/cdp liquidations are not its subject
+		desc := "asis"
+		var old map[string]sdk.Dec
+		if r.Chance(88) {
+			if old = m.pushOverLimit(ctx, addr); old != nil {
+				desc = "moved"
+			}
+		}
+		msg := hardtypes.NewMsgLiquidate(actor, addr)
+		_, err := m.ms.hard.Liquidate(sdk.WrapSDKContext(ctx), &msg)
+		for _, d := range []string{"bnb", "busd", "usdx"} {
+			if p, ok := old[d]; ok {
+				w.setPrice(ctx, d+":usd", p)
+			}
+		}
+		return desc, err
 	case "hrep", "hrep3":
 		sender := addr
 		if kind == "hrep3" {
